@@ -341,3 +341,43 @@ pub fn retransmit_all_0rtt_native(len_: u8, partial: bool) -> u32 {
     assert!(fin, "the end of the early stream was not sent again after the Retry");
     1 + (len_ == 0) as u32 + 2 * partial as u32
 }
+
+/// Native replay body for the E2 query `e2_recvstream_received_reset` (C11), on a real `StreamsState`:
+/// mode 0 - the application stopped the stream: `received_reset` (like `read` and `stop`) reports a closed
+///          stream, also before the peer's RESET_STREAM arrives;
+/// mode 1 - the peer reset the stream: the code is reported exactly once, afterwards the stream is closed;
+/// mode 2 - an open stream that was not reset: `Ok(None)`, and the stream stays readable.
+pub fn recvstream_received_reset_native(mode: u8) -> u32 {
+    use super::state::verif::{mk_streams, Scalars};
+    let mut st = mk_streams(&Scalars {
+        server: true, max_remote: [4, 4], sent_max_remote: [4, 4], allocated_remote_count: [4, 4], max_concurrent_remote_count: [4, 4],
+        receive_window: 1 << 20, local_max_data: 1 << 20, sent_max_data: 1 << 20, stream_receive_window: 1 << 16, ..Default::default()
+    });
+    let mut pending = Retransmits::default();
+    let id = StreamId::new(crate::Side::Client, Dir::Uni, 0);
+    st.insert(true, id);
+    st.received(frame::Stream { id, offset: 0, fin: false, data: Bytes::from_static(b"abcd") }, 4).unwrap();
+    match mode {
+        0 => {
+            let mut rs = RecvStream { id, state: &mut st, pending: &mut pending };
+            rs.stop(VarInt::from_u32(5)).expect("stop succeeds on an open stream");
+            assert!(rs.received_reset().is_err(), "received_reset on a stopped stream must report a closed stream");
+            assert!(rs.stop(VarInt::from_u32(5)).is_err() && rs.read(true).is_err(), "a stopped stream must be closed for every operation");
+            1
+        }
+        1 => {
+            st.received_reset(frame::ResetStream { id, error_code: VarInt::from_u32(9), final_offset: VarInt::from_u32(4) }).unwrap();
+            let mut rs = RecvStream { id, state: &mut st, pending: &mut pending };
+            assert!(rs.received_reset() == Ok(Some(VarInt::from_u32(9))), "the sender's reset code must be reported");
+            assert!(rs.received_reset().is_err(), "the reset was reported a second time / the stream is not closed afterwards");
+            assert!(rs.read(true).is_err() && rs.stop(VarInt::from_u32(5)).is_err(), "operations after the terminal outcome must report a closed stream");
+            2
+        }
+        _ => {
+            let mut rs = RecvStream { id, state: &mut st, pending: &mut pending };
+            assert!(rs.received_reset() == Ok(None), "a stream that was not reset must not report one");
+            assert!(rs.read(true).is_ok(), "the stream must stay readable");
+            4
+        }
+    }
+}
